@@ -1,6 +1,999 @@
-//! C18 — not built yet.
+//! C18 — channel keys are a stable function of (seed, network, channel id).
+//!
+//! Two groups against the Lean model `keys` (`lean/VlsModel/Model/Keys.lean`):
+//!  * `C18Unit`: the derivation functions themselves (`hkdf_sha256`, `KeyDerive::{channels_seed,
+//!    keys_id, channel_keys}` for Native and Ldk, LDK's `build_commitment_secret` and the real
+//!    `CounterpartyCommitmentSecrets`), byte for byte against the executable Lean HKDF/SHA-256;
+//!  * `C18Node`: real `Node`s (random seeds, Native and Ldk, several networks) with random sets and
+//!    creation orders of channel ids, `setup_channel`, real validate/revoke sequences, restarts
+//!    through `KVVPersister<MemoryKVVStore>` + `Node::restore_node`, and fresh nodes on the same seed.
+//! Monitors (ghost ledger keyed by (style, seed, network, channel id), kept across restarts and node
+//! instantiations): `keys-depend-on-history`, `keys-collide-across-ids`, `secret-tree-law-broken`,
+//! `public-keys-not-from-secrets`.
 use crate::common::*;
+use lightning_signer::bitcoin::bip32::{ChildNumber, DerivationPath, Xpriv};
+use lightning_signer::bitcoin::hashes::sha256::Hash as Sha256;
+use lightning_signer::bitcoin::hashes::Hash;
+use lightning_signer::bitcoin::secp256k1::{PublicKey, Secp256k1, SecretKey};
+use lightning_signer::bitcoin::{Network, OutPoint, Txid};
+use lightning_signer::channel::{ChannelBase, ChannelId, ChannelSlot};
+use lightning_signer::lightning::ln::chan_utils::{
+    build_commitment_secret, ChannelPublicKeys, CounterpartyCommitmentSecrets,
+};
+use lightning_signer::lightning::sign::{ChannelSigner, InMemorySigner};
+use lightning_signer::node::{Node, NodeConfig, NodeServices};
+use lightning_signer::persist::Persist;
+use lightning_signer::policy::simple_validator::SimpleValidatorFactory;
+use lightning_signer::signer::derive::{key_derive, KeyDerivationStyle};
+use lightning_signer::util::clock::StandardClock;
+use lightning_signer::util::crypto_utils::hkdf_sha256;
+use lightning_signer::util::test_utils::*;
+use std::collections::BTreeMap;
+use std::sync::Arc;
+use vls_persist::kvv::memory::MemoryKVVStore;
+use vls_persist::kvv::{JsonFormat, KVVPersister};
+
+const INITIAL: u64 = (1 << 48) - 1;
+
+fn hx(b: &[u8]) -> String {
+    if b.is_empty() { "-".into() } else { hex::encode(b) }
+}
+fn unhx(s: &str) -> Option<Vec<u8>> {
+    if s == "-" { Some(vec![]) } else { hex::decode(s).ok() }
+}
+fn net_of(s: &str) -> Option<Network> {
+    match s {
+        "bitcoin" => Some(Network::Bitcoin),
+        "testnet" => Some(Network::Testnet),
+        "signet" => Some(Network::Signet),
+        "regtest" => Some(Network::Regtest),
+        _ => None,
+    }
+}
+fn style_of(s: &str) -> Option<KeyDerivationStyle> {
+    match s {
+        "n" => Some(KeyDerivationStyle::Native),
+        "l" => Some(KeyDerivationStyle::Ldk),
+        _ => None,
+    }
+}
+
+/// the secret material of a signer in the canonical form the model prints
+fn material(k: &InMemorySigner) -> String {
+    format!(
+        "id={} f={} r={} h={} p={} d={} s={}",
+        hx(&k.channel_keys_id()),
+        hx(&k.funding_key.secret_bytes()),
+        hx(&k.revocation_base_key.secret_bytes()),
+        hx(&k.htlc_base_key.secret_bytes()),
+        hx(&k.payment_key.secret_bytes()),
+        hx(&k.delayed_payment_base_key.secret_bytes()),
+        hx(&k.commitment_seed)
+    )
+}
+
+fn secrets_of(k: &InMemorySigner) -> Vec<(&'static str, Vec<u8>)> {
+    vec![
+        ("keys_id", k.channel_keys_id().to_vec()),
+        ("funding", k.funding_key.secret_bytes().to_vec()),
+        ("revocation", k.revocation_base_key.secret_bytes().to_vec()),
+        ("htlc", k.htlc_base_key.secret_bytes().to_vec()),
+        ("payment", k.payment_key.secret_bytes().to_vec()),
+        ("delayed", k.delayed_payment_base_key.secret_bytes().to_vec()),
+        ("commitment_seed", k.commitment_seed.to_vec()),
+    ]
+}
+
+fn pubs(p: &ChannelPublicKeys) -> String {
+    format!(
+        "F={} R={} P={} D={} H={}",
+        p.funding_pubkey,
+        p.revocation_basepoint.to_public_key(),
+        p.payment_point,
+        p.delayed_payment_basepoint.to_public_key(),
+        p.htlc_basepoint.to_public_key()
+    )
+}
+
+fn pubs_from_secrets(k: &InMemorySigner) -> String {
+    let secp = Secp256k1::new();
+    let pk = |s: &SecretKey| PublicKey::from_secret_key(&secp, s);
+    format!(
+        "F={} R={} P={} D={} H={}",
+        pk(&k.funding_key),
+        pk(&k.revocation_base_key),
+        pk(&k.payment_key),
+        pk(&k.delayed_payment_base_key),
+        pk(&k.htlc_base_key)
+    )
+}
+
+/// BIP32 oracle for the LDK style: private key of m/3'/idx' of the master key of `seed`.
+/// `idx` is what the implementation's own keys_id says; the model checks it against its keys_id.
+fn ldk_oracle(seed: &[u8], net: Network, id: &[u8]) -> Option<String> {
+    let kd = key_derive(KeyDerivationStyle::Ldk, net);
+    let base = kd.channels_seed(seed);
+    let kid = kd.keys_id(ChannelId::new(id), &base);
+    let mut b = [0u8; 8];
+    b.copy_from_slice(&kid[0..8]);
+    let idx = u64::from_be_bytes(b);
+    if idx >= (1 << 31) {
+        return None;
+    }
+    let secp = Secp256k1::new();
+    let master = Xpriv::new_master(net, seed).ok()?;
+    let child = master
+        .derive_priv(&secp, &[ChildNumber::from_hardened_idx(3).unwrap()])
+        .ok()?
+        .derive_priv(&secp, &[ChildNumber::from_hardened_idx(idx as u32).ok()?])
+        .ok()?;
+    Some(format!("{}:{}", idx, hx(&child.private_key.secret_bytes())))
+}
+
+/// What HMAC does to its key before use: keys longer than the block are hashed, then the key is
+/// zero-padded to the block.  `keys_id` uses the channel id as the HMAC key (HKDF salt), so two ids
+/// with the same normal form *necessarily* derive the same keys (known finding, see notes/C18.md).
+fn hmac_key_norm(id: &[u8]) -> Vec<u8> {
+    let mut v = if id.len() > 64 { Sha256::hash(id).to_byte_array().to_vec() } else { id.to_vec() };
+    while v.last() == Some(&0) {
+        v.pop();
+    }
+    v
+}
+
+fn collide_kind(a: &[u8], b: &[u8]) -> &'static str {
+    if hmac_key_norm(a) == hmac_key_norm(b) { "keys-collide-hmac-key-normalisation" } else { "keys-collide-across-ids" }
+}
+
+fn le_chan_id(peer: &[u8], dbid: u64) -> Vec<u8> {
+    let mut v = peer.to_vec();
+    v.extend_from_slice(&dbid.to_le_bytes());
+    v
+}
+
+// ---------------------------------------------------------------------------------------------
+// unit group
+// ---------------------------------------------------------------------------------------------
+
+pub struct C18Unit;
+
+fn derive_material(style: KeyDerivationStyle, seed: &[u8], net: Network, id: &[u8], basepoint_index: u32) -> Result<(String, String), String> {
+    let r = std::panic::catch_unwind(std::panic::AssertUnwindSafe(|| {
+        let secp = Secp256k1::new();
+        let kd = key_derive(style, net);
+        let base = kd.channels_seed(seed);
+        let kid = kd.keys_id(ChannelId::new(id), &base);
+        let master = kd.master_key(seed);
+        let (f, r, h, p, d, s) = kd.channel_keys(seed, &kid, basepoint_index, &master, &secp);
+        (
+            hx(&base),
+            format!(
+                "id={} f={} r={} h={} p={} d={} s={}",
+                hx(&kid), hx(&f.secret_bytes()), hx(&r.secret_bytes()), hx(&h.secret_bytes()),
+                hx(&p.secret_bytes()), hx(&d.secret_bytes()), hx(&s)
+            ),
+        )
+    }));
+    r.map_err(|_| "panic".to_string())
+}
+
+impl Group for C18Unit {
+    fn property(&self) -> &'static str { "C18" }
+    fn model(&self) -> Option<&'static str> { Some("keys") }
+    fn rule(&self) -> &'static str {
+        "unit: hkdf_sha256 on random inputs (secret/info/salt lengths 0..130, i.e. across the HMAC block size); \
+         KeyDerive::{channels_seed,keys_id,channel_keys} for Native and Ldk on random seeds (16..64 bytes), all four \
+         networks, channel ids of length 0, 8, 32, 41, 64, 65, 100 (the id is the HKDF salt), each derivation repeated \
+         with a different basepoint_index (must not matter); build_commitment_secret on indices with 0, 1, few, many, \
+         all of the 48 bits set; tree law through the real CounterpartyCommitmentSecrets (descending provide over a \
+         2^bits window, then get_secret); non-trivial = a case holding at least one key derivation and one tree query \
+         with bits > 0"
+    }
+    fn budget(&self, tier: Tier) -> usize { if tier == Tier::Quick { 1200 } else { 12000 } }
+    fn corpus(&self) -> Vec<Vec<String>> {
+        let s1 = "01".repeat(32);
+        let s2 = "02".repeat(32);
+        let z = "00".repeat(32);
+        let ff = "ff".repeat(32);
+        vec![
+            // the repository's own known-answer vectors (derive.rs, crypto_utils.rs) and BOLT-3 appendix D
+            vec![
+                "hkdf32 01 02 03".to_string(),
+                format!("hkdf32 {} {} {}", s2, hx(b"per-peer seed"), s1),
+                format!("native_keys {} testnet {}", s1, s1),
+                format!("ldk_keys {} testnet {} {}", s1, s1, ldk_oracle(&[1u8; 32], Network::Testnet, &[1u8; 32]).unwrap()),
+                format!("commit_secret {} 281474976710655", z),
+                format!("commit_secret {} 281474976710655", ff),
+                format!("commit_secret {} 187649984473770", ff),
+                format!("commit_secret {} 93824992236885", ff),
+                format!("commit_secret {} 1", s1),
+                format!("tree {} 281474976710655 0", s1),
+                format!("tree {} 281474976710655 3", s1),
+                format!("tree {} 281474976710400 8", s1),
+                format!("tree {} 281474976710144 7", s1),
+            ],
+            // known finding: the channel id is the HMAC key of keys_id, so trailing zero bytes do not
+            // count and an id longer than 64 bytes equals its SHA-256
+            vec![
+                format!("native_keys {} testnet {}", s1, "ab".repeat(41)),
+                format!("native_keys {} testnet {}00", s1, "ab".repeat(41)),
+                format!("native_keys {} testnet {}", s1, "cd".repeat(65)),
+                format!("native_keys {} testnet {}", s1, hx(&Sha256::hash(&[0xcdu8; 65]).to_byte_array())),
+            ],
+        ]
+    }
+    fn gen_case(&self, rng: &mut Rng, tier: Tier) -> Vec<String> {
+        let mut ops = Vec::new();
+        let n = rng.range(4, 10);
+        let seedlen = *rng.pick(&[32usize, 32, 32, 16, 64, 33]);
+        let seed = rng.bytes(seedlen);
+        let cseed = rng.bytes(32);
+        for _ in 0..n {
+            match rng.below(10) {
+                0 => {
+                    let la = *rng.pick(&[0usize, 1, 32, 63, 64, 65, 130]);
+                    let a = rng.bytes(la);
+                    let lb = *rng.pick(&[0usize, 1, 9, 13, 64, 100]);
+                    let b = rng.bytes(lb);
+                    let lc = *rng.pick(&[0usize, 1, 32, 41, 64, 65, 130]);
+                    let c = rng.bytes(lc);
+                    ops.push(format!("hkdf32 {} {} {}", hx(&a), hx(&b), hx(&c)));
+                }
+                1 | 2 | 3 | 4 => {
+                    let net = *rng.pick(&["bitcoin", "testnet", "signet", "regtest"]);
+                    let idlen = *rng.pick(&[0usize, 8, 32, 32, 41, 41, 64, 65, 100]);
+                    let mut id = rng.bytes(idlen);
+                    if rng.chance(1, 6) {
+                        for b in id.iter_mut() { *b = 0; }
+                    }
+                    if rng.chance(1, 2) {
+                        ops.push(format!("native_keys {} {} {}", hx(&seed), net, hx(&id)));
+                    } else if let Some(o) = ldk_oracle(&seed, net_of(net).unwrap(), &id) {
+                        ops.push(format!("ldk_keys {} {} {} {}", hx(&seed), net, hx(&id), o));
+                    }
+                }
+                5 | 6 => {
+                    let idx = match rng.below(6) {
+                        0 => 0,
+                        1 => INITIAL,
+                        2 => 1u64 << rng.below(48),
+                        3 => INITIAL - rng.below(1000),
+                        4 => INITIAL ^ (1u64 << rng.below(48)),
+                        _ => rng.below(1 << 48),
+                    };
+                    ops.push(format!("commit_secret {} {}", hx(&cseed), idx));
+                }
+                _ => {
+                    let maxbits = if tier == Tier::Quick { 7 } else { 10 };
+                    let bits = rng.range(0, maxbits);
+                    let idx = match rng.below(4) {
+                        0 => INITIAL - rng.below(300),
+                        1 => rng.below(1 << 48),
+                        2 => (rng.below(1 << 40) << 8) | 0xff,
+                        _ => rng.below(1 << 48) & !((1u64 << bits) - 1),
+                    };
+                    let idx = (idx | (1u64 << bits)) & ((1u64 << 48) - 1);
+                    ops.push(format!("tree {} {} {}", hx(&cseed), idx, bits));
+                }
+            }
+        }
+        ops
+    }
+    fn exec_case(&self, ops: &[String]) -> CaseOut {
+        let mut co = CaseOut::default();
+        let (mut saw_keys, mut saw_tree) = (false, false);
+        // (style, seed, net) -> id -> material, for the distinctness monitor
+        let mut seen: BTreeMap<String, BTreeMap<Vec<u8>, String>> = BTreeMap::new();
+        for (i, op) in ops.iter().enumerate() {
+            let t: Vec<&str> = op.split_whitespace().collect();
+            let line = match t.as_slice() {
+                ["hkdf32", a, b, c] => match (unhx(a), unhx(b), unhx(c)) {
+                    (Some(a), Some(b), Some(c)) => { co.tags.insert("hkdf32".into()); hx(&hkdf_sha256(&a, &b, &c)) }
+                    _ => "bad-op".into(),
+                },
+                [k @ ("native_keys" | "ldk_keys"), s, n, id, ..] => match (unhx(s), net_of(n), unhx(id)) {
+                    (Some(seed), Some(net), Some(id)) => {
+                        let style = if *k == "native_keys" { KeyDerivationStyle::Native } else { KeyDerivationStyle::Ldk };
+                        match derive_material(style, &seed, net, &id, 0) {
+                            Err(e) => { co.tags.insert(format!("{}:panic", k)); e }
+                            Ok((base, m)) => {
+                                saw_keys = true;
+                                co.tags.insert(format!("{}:idlen{}", k, id.len()));
+                                // the manager's counter must not matter
+                                let other = derive_material(style, &seed, net, &id, 1 + (i as u32) * 7919);
+                                if other.as_ref().ok().map(|x| &x.1) != Some(&m) {
+                                    co.violations.push(Violation {
+                                        kind: "keys-depend-on-history".into(),
+                                        desc: format!("{} channel_keys differs with basepoint_index: {} vs {:?}", k, m, other),
+                                        at: i,
+                                    });
+                                }
+                                let e = seen.entry(format!("{} {} {}", k, s, n)).or_default();
+                                for (oid, om) in e.iter() {
+                                    if *oid != id {
+                                        let a: Vec<&str> = om.split(' ').map(|x| &x[x.find('=').unwrap() + 1..]).collect();
+                                        let b: Vec<&str> = m.split(' ').map(|x| &x[x.find('=').unwrap() + 1..]).collect();
+                                        if a.iter().any(|x| b.contains(x)) {
+                                            co.violations.push(Violation {
+                                                kind: collide_kind(oid, &id).into(),
+                                                desc: format!("ids {} and {} share key material: {} / {}", hx(oid), hx(&id), om, m),
+                                                at: i,
+                                            });
+                                        }
+                                    }
+                                }
+                                e.insert(id.clone(), m.clone());
+                                format!("base={} {}", base, m)
+                            }
+                        }
+                    }
+                    _ => "bad-op".into(),
+                },
+                ["commit_secret", s, idx] => match (unhx(s), idx.parse::<u64>()) {
+                    (Some(seed), Ok(idx)) if seed.len() == 32 => {
+                        let mut a = [0u8; 32];
+                        a.copy_from_slice(&seed);
+                        co.tags.insert(format!("commit_secret:bits{}", (idx.count_ones() + 7) / 8 * 8));
+                        hx(&build_commitment_secret(&a, idx))
+                    }
+                    _ => "bad-op".into(),
+                },
+                ["tree", s, idx, bits] => match (unhx(s), idx.parse::<u64>(), bits.parse::<u32>()) {
+                    // the real store only accepts secrets in the order a channel releases them, so the
+                    // window must be a whole subtree: bit `bits` of idx set (the base then has exactly
+                    // `bits` trailing zeros); the driver applies the same restriction
+                    (Some(seed), Ok(idx), Ok(bits)) if seed.len() == 32 && bits <= 16 && idx < (1 << 48) && (idx >> bits) & 1 == 1 => {
+                        let mut a = [0u8; 32];
+                        a.copy_from_slice(&seed);
+                        let whole = build_commitment_secret(&a, idx);
+                        let base = idx & !((1u64 << bits) - 1);
+                        let top = base | ((1u64 << bits) - 1);
+                        // the counterparty's compact store, fed the way a channel feeds it: descending
+                        let mut store = CounterpartyCommitmentSecrets::new();
+                        let mut accepted = true;
+                        let mut j = top;
+                        loop {
+                            if store.provide_secret(j, build_commitment_secret(&a, j)).is_err() {
+                                accepted = false;
+                                break;
+                            }
+                            if j == base { break; }
+                            j -= 1;
+                        }
+                        // every index of the window must come back, the queried one is printed
+                        let mut all_back = accepted;
+                        if accepted {
+                            for j in base..=top {
+                                if store.get_secret(j) != Some(build_commitment_secret(&a, j)) { all_back = false; }
+                            }
+                        }
+                        let via = if accepted { store.get_secret(idx) } else { None };
+                        if bits > 0 { saw_tree = true; }
+                        co.tags.insert(format!("tree:bits{}", bits));
+                        if via != Some(whole) || !all_back {
+                            co.violations.push(Violation {
+                                kind: "secret-tree-law-broken".into(),
+                                desc: format!("seed {} window [{}, {}]: store accepted={} reproduces-all={} get_secret({})={:?} but build_commitment_secret gives {}",
+                                    s, base, top, accepted, all_back, idx, via.map(|v| hx(&v)), hx(&whole)),
+                                at: i,
+                            });
+                        }
+                        format!("{} {}", hx(&whole), via.map(|v| hx(&v)).unwrap_or("none".into()))
+                    }
+                    _ => "bad-op".into(),
+                },
+                _ => "bad-op".into(),
+            };
+            co.out.push(line);
+        }
+        co.nontrivial = saw_keys && saw_tree;
+        co
+    }
+}
+
+// ---------------------------------------------------------------------------------------------
+// node group
+// ---------------------------------------------------------------------------------------------
+
+pub struct C18Node;
+
+struct Live {
+    node: Arc<Node>,
+    persister: Arc<dyn Persist>,
+    style: KeyDerivationStyle,
+    seed: Vec<u8>,
+    net: Network,
+    cfgkey: String,
+    /// ids created by new_channel_with_random_id on this store
+    random_ids: Vec<ChannelId>,
+}
+
+#[derive(Default)]
+struct ChanLedger {
+    obs: Option<(String, String)>,
+    /// commitment number -> (secret, point if it was ever handed out)
+    commits: BTreeMap<u64, (Vec<u8>, Option<PublicKey>)>,
+    store: Option<CounterpartyCommitmentSecrets>,
+    released: BTreeMap<u64, [u8; 32]>,
+}
+
+fn services(persister: Arc<dyn Persist>, net: Network, inst: u64) -> NodeServices {
+    NodeServices {
+        validator_factory: Arc::new(SimpleValidatorFactory::new()),
+        // a different starting time on every instantiation, as on a real restart
+        starting_time_factory: if inst == 0 { make_genesis_starting_time_factory(net) } else { FixedStartingTimeFactory::new(1_700_000_000 + inst * 977, (inst * 31337) as u32) },
+        persister,
+        clock: Arc::new(StandardClock()),
+        trusted_oracle_pubkeys: vec![],
+    }
+}
+
+fn with_keys<T>(slot: &ChannelSlot, f: impl FnOnce(&InMemorySigner, bool) -> T) -> T {
+    match slot {
+        ChannelSlot::Stub(s) => f(&s.keys, false),
+        ChannelSlot::Ready(c) => f(&c.keys, true),
+    }
+}
+
+struct Mon<'a> {
+    ledger: &'a mut BTreeMap<(String, Vec<u8>), ChanLedger>,
+    co: &'a mut CaseOut,
+    at: usize,
+}
+
+impl<'a> Mon<'a> {
+    fn fire(&mut self, kind: &str, desc: String) {
+        self.co.violations.push(Violation { kind: kind.into(), desc, at: self.at });
+    }
+
+    /// observe one channel of the live node through its public accessors
+    fn observe(&mut self, live: &Live, id: &ChannelId, how: &str) {
+        let slot_arc = match live.node.get_channel(id) {
+            Ok(s) => s,
+            Err(_) => return,
+        };
+        let slot = slot_arc.lock().unwrap();
+        let id0 = slot.id().inner().clone();
+        let (mat, secs, from_secrets) = with_keys(&slot, |k, _| (material(k), secrets_of(k), pubs_from_secrets(k)));
+        let base = pubs(&slot.get_channel_basepoints());
+        drop(slot);
+        if base != from_secrets {
+            self.fire("public-keys-not-from-secrets", format!("{}: channel {} basepoints {} but secrets give {}", how, hx(&id0), base, from_secrets));
+        }
+        let key = (live.cfgkey.clone(), id0.clone());
+        let is_new = self.ledger.get(&key).map(|l| l.obs.is_none()).unwrap_or(true);
+        if is_new {
+            // distinct ids => distinct keys
+            let mut clash = None;
+            for ((ck, oid), l) in self.ledger.iter() {
+                if *ck == live.cfgkey && *oid != id0 {
+                    if let Some((om, _)) = &l.obs {
+                        let a: Vec<&str> = om.split(' ').map(|x| &x[x.find('=').unwrap() + 1..]).collect();
+                        if secs.iter().any(|(_, v)| a.contains(&hx(v).as_str())) {
+                            clash = Some((hx(oid), om.clone(), collide_kind(oid, &id0)));
+                        }
+                    }
+                }
+            }
+            if let Some((oid, om, kind)) = clash {
+                self.fire(kind, format!("{}: ids {} and {} under {} share key material: {} / {}", how, oid, hx(&id0), live.cfgkey, om, mat));
+            }
+            self.ledger.entry(key).or_default().obs = Some((mat, base));
+        } else {
+            let l = self.ledger.get(&key).unwrap();
+            let (om, ob) = l.obs.clone().unwrap();
+            if om != mat || ob != base {
+                self.fire("keys-depend-on-history", format!("{}: channel {} under {} had {} {} and now has {} {}", how, hx(&id0), live.cfgkey, om, ob, mat, base));
+            }
+        }
+    }
+
+    fn observe_all(&mut self, live: &Live, how: &str) {
+        let ids: Vec<ChannelId> = live.node.get_channels().keys().cloned().collect();
+        for id in ids {
+            self.observe(live, &id, how);
+        }
+    }
+
+    /// record/check one per-commitment secret (and point, if handed out) of a channel
+    fn commit_obs(&mut self, live: &Live, id0: &[u8], n: u64, secret: &[u8], point: Option<PublicKey>, how: &str) {
+        let secp = Secp256k1::new();
+        if let Some(p) = point {
+            let expect = SecretKey::from_slice(secret).map(|s| PublicKey::from_secret_key(&secp, &s));
+            if expect != Ok(p) {
+                self.fire("public-keys-not-from-secrets", format!("{}: channel {} per-commitment point {} is {} but the secret {} gives {:?}", how, hx(id0), n, p, hx(secret), expect));
+            }
+        }
+        let key = (live.cfgkey.clone(), id0.to_vec());
+        let l = self.ledger.entry(key).or_default();
+        let mut msg = None;
+        match l.commits.get_mut(&n) {
+            None => { l.commits.insert(n, (secret.to_vec(), point)); }
+            Some((os, op)) => {
+                if os.as_slice() != secret || (op.is_some() && point.is_some() && *op != point) {
+                    msg = Some(format!("{}: channel {} under {} per-commitment {}: secret/point were {} {:?}, now {} {:?}", how, hx(id0), live.cfgkey, n, hx(os), op, hx(secret), point));
+                }
+                if op.is_none() { *op = point; }
+            }
+        }
+        if let Some(m) = msg { self.fire("keys-depend-on-history", m); }
+    }
+
+    /// a secret released by a real revoke: feed the counterparty's compact store (the real
+    /// `CounterpartyCommitmentSecrets`) in the order a counterparty receives them: 0, 1, 2, ...
+    /// A commitment number released again (after a restart, or by another node on the same seed)
+    /// must yield the same secret.
+    fn released(&mut self, live: &Live, id0: &[u8], n: u64, secret: [u8; 32], how: &str) {
+        let key = (live.cfgkey.clone(), id0.to_vec());
+        let l = self.ledger.entry(key).or_default();
+        let mut hist = Vec::new();
+        let mut tree = Vec::new();
+        if let Some(old) = l.released.get(&n) {
+            if *old != secret {
+                hist.push(format!("{}: channel {} under {} released {} for commitment {} earlier and {} now", how, hx(id0), live.cfgkey, hx(old), n, hx(&secret)));
+            }
+        } else if n as usize == l.released.len() {
+            let store = l.store.get_or_insert_with(CounterpartyCommitmentSecrets::new);
+            if store.provide_secret(INITIAL - n, secret).is_err() {
+                tree.push(format!("{}: channel {} released secret {} for commitment {} refused by CounterpartyCommitmentSecrets", how, hx(id0), hx(&secret), n));
+            } else {
+                l.released.insert(n, secret);
+                for (m, s) in l.released.iter() {
+                    if store.get_secret(INITIAL - m) != Some(*s) {
+                        tree.push(format!("{}: channel {} store does not reproduce the secret of commitment {}", how, hx(id0), m));
+                    }
+                }
+            }
+        } else {
+            // a gap (a fresh node released n without the ledger having seen n-1): cannot happen with
+            // validate/revoke sequences that start at 0; report it rather than ignore it
+            tree.push(format!("{}: channel {} released commitment {} out of order (ledger holds {} secrets)", how, hx(id0), n, l.released.len()));
+        }
+        for m in hist { self.fire("keys-depend-on-history", m); }
+        for m in tree { self.fire("secret-tree-law-broken", m); }
+    }
+}
+
+fn chan_setup(id0: &[u8], value: u64, net: Network) -> lightning_signer::channel::ChannelSetup {
+    let mut setup = make_test_channel_setup();
+    setup.channel_value_sat = value;
+    setup.funding_outpoint = OutPoint { txid: Txid::from_slice(&Sha256::hash(id0).to_byte_array()).unwrap(), vout: 0 };
+    if net == Network::Bitcoin {
+        setup.holder_selected_contest_delay = 144;
+        setup.counterparty_selected_contest_delay = 144;
+    }
+    setup
+}
+
+fn perm_id(id0: &[u8]) -> ChannelId {
+    let mut v = b"perm".to_vec();
+    v.extend_from_slice(id0);
+    ChannelId::new(&Sha256::hash(&v).to_byte_array())
+}
+
+impl C18Node {
+    fn start(style: KeyDerivationStyle, seed: &[u8], net: Network, inst: u64) -> Live {
+        let mut sid = [0u8; 16];
+        sid[..8].copy_from_slice(&inst.to_be_bytes());
+        let persister: Arc<dyn Persist> = Arc::new(KVVPersister(MemoryKVVStore::new(sid), JsonFormat));
+        let config = NodeConfig { network: net, key_derivation_style: style, use_checkpoints: false, allow_deep_reorgs: true };
+        let mut s32 = [0u8; 32];
+        s32.copy_from_slice(seed);
+        let n = Arc::new(Node::new(config, &s32, vec![], services(persister.clone(), net, inst)));
+        persister.new_node(&n.get_id(), &config, &*n.get_state()).unwrap();
+        persister.new_tracker(&n.get_id(), &n.get_tracker()).unwrap();
+        n.add_allowlist(&[]).unwrap();
+        Live { node: n, persister, style, seed: seed.to_vec(), net, cfgkey: format!("{} {} {}", style, hx(seed), net), random_ids: vec![] }
+    }
+
+    fn restart(live: Live, inst: u64) -> Live {
+        let Live { node, persister, style, seed, net, cfgkey, random_ids } = live;
+        drop(node);
+        let (node_id, entry) = persister.get_nodes().unwrap().into_iter().next().unwrap();
+        let n = Node::restore_node(&node_id, entry, &seed, services(persister.clone(), net, inst)).unwrap();
+        Live { node: n, persister, style, seed, net, cfgkey, random_ids }
+    }
+}
+
+impl Group for C18Node {
+    fn property(&self) -> &'static str { "C18" }
+    fn model(&self) -> Option<&'static str> { Some("keys") }
+    fn rule(&self) -> &'static str {
+        "node: real Node (random 32-byte seed, Native or Ldk, testnet/regtest/signet/bitcoin), a pool of 2-5 channel \
+         identities (random peer id, dbid from {1, 2, small, 2^32 region, u64::MAX region}) created through \
+         Node::new_channel in random order and subsets, interleaved with new_channel_with_random_id, setup_channel \
+         (random value, optionally with a permanent id), real validate+revoke steps (counterparty-signed holder \
+         commitments), per-commitment queries around next_holder_commit_num (0, next-1..next+2, 2^48-1, 2^48), restarts \
+         through the real persister with a different starting time, and 1-2 further fresh nodes on the same seed that \
+         create the ids in another order; non-trivial = at least two distinct channel ids, at least one restart or second \
+         instantiation, and at least one secret released by a real revoke"
+    }
+    fn budget(&self, tier: Tier) -> usize { if tier == Tier::Quick { 600 } else { 6000 } }
+    fn corpus(&self) -> Vec<Vec<String>> {
+        let seed = "07".repeat(32);
+        let pa = format!("02{}", "aa".repeat(32));
+        let pb = format!("03{}", "bb".repeat(32));
+        let mut v = Vec::new();
+        for style in ["n", "l"] {
+            let sb = [7u8; 32];
+            let o = |peer: &str, dbid: u64| -> String {
+                if style == "l" {
+                    format!(" {}", ldk_oracle(&sb, Network::Testnet, &le_chan_id(&hex::decode(peer).unwrap(), dbid)).unwrap())
+                } else { String::new() }
+            };
+            v.push(vec![
+                format!("node {} {} testnet", style, seed),
+                format!("new 1 {}{}", pa, o(&pa, 1)),
+                format!("new 2 {}{}", pb, o(&pb, 2)),
+                format!("commit 1 {} 0", pa),
+                format!("commit 1 {} 2", pa),
+                format!("setup 1 {} 1000000", pa),
+                format!("advance 1 {}", pa),
+                format!("advance 1 {}", pa),
+                format!("advance 1 {}", pa),
+                "restart".to_string(),
+                format!("keys 1 {}", pa),
+                format!("advance 1 {}", pa),
+                format!("commit 1 {} 2", pa),
+                format!("commit 1 {} 5", pa),
+                format!("node {} {} testnet", style, seed),
+                format!("new 2 {}{}", pb, o(&pb, 2)),
+                "new_random".to_string(),
+                format!("new 1 {}{}", pa, o(&pa, 1)),
+                format!("setup 1 {} 2000000 p", pa),
+                format!("advance 1 {}", pa),
+                format!("advance 1 {}", pa),
+                "restart".to_string(),
+                format!("advance 1 {}", pa),
+                format!("keys 2 {}", pb),
+                format!("new 0 {}", pb),
+            ]);
+        }
+        v
+    }
+    fn model_line(&self, op: &str) -> Option<String> {
+        let t: Vec<&str> = op.split_whitespace().collect();
+        match t.as_slice() {
+            ["new_random"] => None,
+            ["setup", a, b, c, "p"] => Some(format!("setup {} {} {}", a, b, c)),
+            _ => Some(op.to_string()),
+        }
+    }
+    fn gen_case(&self, rng: &mut Rng, tier: Tier) -> Vec<String> {
+        let seed = rng.bytes(32);
+        let style = *rng.pick(&["n", "l"]);
+        let net = *rng.pick(&["testnet", "testnet", "regtest", "signet", "bitcoin"]);
+        let netv = net_of(net).unwrap();
+        let k = rng.range(2, 5) as usize;
+        let mut pool: Vec<(u64, Vec<u8>)> = Vec::new();
+        let shared_peer = { let mut p = rng.bytes(33); p[0] = 2 + (p[0] & 1); p };
+        for j in 0..k {
+            let dbid = match rng.below(6) {
+                0 => 1 + j as u64,
+                1 => rng.range(1, 1000),
+                2 => (1u64 << 32) - 2 + rng.below(5),
+                3 => u64::MAX - rng.below(4),
+                _ => rng.range(1, u64::MAX / 2),
+            };
+            // several channels with the same peer (ids differing only in the dbid) are the common case
+            let peer = if rng.chance(1, 2) { shared_peer.clone() } else { let mut p = rng.bytes(33); p[0] = 2 + (p[0] & 1); p };
+            if !pool.iter().any(|(d, p)| *d == dbid && *p == peer) {
+                pool.push((dbid, peer));
+            }
+        }
+        let new_line = |dbid: u64, peer: &[u8]| -> String {
+            let mut l = format!("new {} {}", dbid, hx(peer));
+            if style == "l" {
+                if let Some(o) = ldk_oracle(&seed, netv, &le_chan_id(peer, dbid)) {
+                    l.push(' ');
+                    l.push_str(&o);
+                }
+            }
+            l
+        };
+        let mut ops = Vec::new();
+        let phases = rng.range(2, 3);
+        let per_phase = if tier == Tier::Quick { rng.range(6, 12) } else { rng.range(8, 22) };
+        for _ in 0..phases {
+            ops.push(format!("node {} {} {}", style, hx(&seed), net));
+            // model-side mirror of what exists in this instantiation: (created, ready, next)
+            let mut st: Vec<(bool, bool, u64)> = vec![(false, false, 0); pool.len()];
+            // creation order: a random permutation prefix
+            let mut order: Vec<usize> = (0..pool.len()).collect();
+            for i in (1..order.len()).rev() {
+                let j = rng.below(i as u64 + 1) as usize;
+                order.swap(i, j);
+            }
+            let mut pending = order;
+            for _ in 0..per_phase {
+                // mostly ops that are valid in the current state, some that are not
+                let created: Vec<usize> = (0..pool.len()).filter(|c| st[*c].0).collect();
+                let roll = rng.below(20);
+                if roll < 2 {
+                    // noise: ops on whatever channel, whatever its state
+                    let c = rng.below(pool.len() as u64) as usize;
+                    let (dbid, peer) = pool[c].clone();
+                    match rng.below(5) {
+                        0 => ops.push(format!("new 0 {}", hx(&peer))),
+                        1 => ops.push(format!("advance {} {}", dbid, hx(&peer))),
+                        2 => ops.push(format!("setup {} {} 1000000", dbid, hx(&peer))),
+                        3 => ops.push(format!("commit {} {} {}", dbid, hx(&peer), rng.below(4))),
+                        _ => ops.push(format!("keys {} {}", dbid, hx(&peer))),
+                    }
+                    if let Some(l) = ops.last() {
+                        if l.starts_with("setup") && st[c].0 && !st[c].1 { st[c].1 = true; }
+                        if l.starts_with("advance") && st[c].1 { st[c].2 += 1; }
+                    }
+                    continue;
+                }
+                if roll < 4 {
+                    ops.push("restart".into());
+                    continue;
+                }
+                if roll < 5 {
+                    ops.push("new_random".into());
+                    continue;
+                }
+                if created.is_empty() || (!pending.is_empty() && roll < 9) {
+                    let c2 = pending.pop().unwrap_or_else(|| rng.below(pool.len() as u64) as usize);
+                    let (d2, p2) = pool[c2].clone();
+                    ops.push(new_line(d2, &p2));
+                    st[c2].0 = true;
+                    continue;
+                }
+                let c = created[rng.below(created.len() as u64) as usize];
+                let (dbid, peer) = pool[c].clone();
+                if !st[c].1 {
+                    match rng.below(6) {
+                        0 => ops.push(format!("commit {} {} {}", dbid, hx(&peer), rng.below(3))),
+                        1 => ops.push(new_line(dbid, &peer)),
+                        _ => {
+                            let value = *rng.pick(&[100_000u64, 1_000_000, 3_000_000, 16_000_000]);
+                            let p = if rng.chance(1, 3) { " p" } else { "" };
+                            ops.push(format!("setup {} {} {}{}", dbid, hx(&peer), value, p));
+                            st[c].1 = true;
+                        }
+                    }
+                    continue;
+                }
+                match rng.below(10) {
+                    0 | 1 | 2 | 3 | 4 => {
+                        let reps = rng.range(1, 3);
+                        for _ in 0..reps {
+                            ops.push(format!("advance {} {}", dbid, hx(&peer)));
+                            st[c].2 += 1;
+                        }
+                    }
+                    5 | 6 | 7 => {
+                        let next = st[c].2;
+                        let n = match rng.below(8) {
+                            0 => 0,
+                            1 => 1,
+                            2 => next.saturating_sub(2),
+                            3 => next.saturating_sub(1),
+                            4 => next,
+                            5 => next + 1,
+                            6 => next + 2,
+                            _ => *rng.pick(&[INITIAL, INITIAL + 1, INITIAL - 1, 1000]),
+                        };
+                        ops.push(format!("commit {} {} {}", dbid, hx(&peer), n));
+                    }
+                    8 => ops.push(format!("keys {} {}", dbid, hx(&peer))),
+                    _ => {
+                        // setup again: same or different value
+                        let value = *rng.pick(&[100_000u64, 1_000_000, 3_000_000, 16_000_000]);
+                        ops.push(format!("setup {} {} {}", dbid, hx(&peer), value));
+                    }
+                }
+            }
+            if rng.chance(1, 2) {
+                ops.push("restart".into());
+                let c = rng.below(pool.len() as u64) as usize;
+                ops.push(format!("keys {} {}", pool[c].0, hx(&pool[c].1)));
+            }
+        }
+        ops
+    }
+    fn exec_case(&self, ops: &[String]) -> CaseOut {
+        let mut co = CaseOut::default();
+        let mut ledger: BTreeMap<(String, Vec<u8>), ChanLedger> = BTreeMap::new();
+        let mut live: Option<Live> = None;
+        let mut inst: u64 = 0;
+        let (mut ids_seen, mut reinst, mut rel) = (std::collections::BTreeSet::new(), 0usize, false);
+        for (i, op) in ops.iter().enumerate() {
+            let t: Vec<&str> = op.split_whitespace().collect();
+            let mut mon = Mon { ledger: &mut ledger, co: &mut co, at: i };
+            let line: String = match t.as_slice() {
+                ["node", s, sd, n] => match (style_of(s), unhx(sd), net_of(n)) {
+                    (Some(style), Some(seed), Some(net)) if seed.len() == 32 => {
+                        if live.is_some() { reinst += 1; }
+                        live = None;
+                        let l = C18Node::start(style, &seed, net, inst);
+                        inst += 1;
+                        let base = key_derive(style, net).channels_seed(&seed);
+                        live = Some(l);
+                        format!("ok base={}", hx(&base))
+                    }
+                    _ => "bad-op".into(),
+                },
+                ["new", db, pr, ..] => match (db.parse::<u64>(), unhx(pr), live.as_ref()) {
+                    (Ok(dbid), Some(peer), Some(l)) if peer.len() == 33 => {
+                        let mut p = [0u8; 33];
+                        p.copy_from_slice(&peer);
+                        match l.node.new_channel(dbid, &p, &l.node) {
+                            Err(_) => { mon.co.tags.insert("new:err".into()); "err".into() }
+                            Ok((id, slot)) => {
+                                ids_seen.insert(id.inner().clone());
+                                mon.co.tags.insert(format!("new:{}", l.style));
+                                let m = slot.as_ref().map(|s| with_keys(s, |k, _| material(k))).unwrap_or("no-slot".into());
+                                mon.observe_all(l, "after new_channel");
+                                format!("ok {}", m)
+                            }
+                        }
+                    }
+                    _ => "bad-op".into(),
+                },
+                ["new_random"] => match live.as_mut() {
+                    Some(l) => {
+                        match l.node.new_channel_with_random_id(&l.node) {
+                            Ok((id, _)) => { l.random_ids.push(id); mon.co.tags.insert("new_random".into()); }
+                            Err(_) => {}
+                        }
+                        mon.observe_all(l, "after new_channel_with_random_id");
+                        "ok".into()
+                    }
+                    None => "bad-op".into(),
+                },
+                ["setup", db, pr, v, rest @ ..] => match (db.parse::<u64>(), unhx(pr), v.parse::<u64>(), live.as_ref()) {
+                    (Ok(dbid), Some(peer), Ok(value), Some(l)) => {
+                        let id0v = le_chan_id(&peer, dbid);
+                        let id0 = ChannelId::new(&id0v);
+                        let perm = if rest.first() == Some(&"p") { Some(perm_id(&id0v)) } else { None };
+                        // a second setup with another permanent id is a different request only in the id
+                        let r = l.node.setup_channel(id0.clone(), perm.clone(), chan_setup(&id0v, value, l.net), &DerivationPath::master());
+                        match r {
+                            Err(_) => { mon.co.tags.insert("setup:err".into()); "err".into() }
+                            Ok(chan) => {
+                                mon.co.tags.insert(if perm.is_some() { "setup:ok-perm".into() } else { "setup:ok".into() });
+                                let m = material(&chan.keys);
+                                mon.observe_all(l, "after setup_channel");
+                                format!("ok {}", m)
+                            }
+                        }
+                    }
+                    _ => "bad-op".into(),
+                },
+                ["keys", db, pr] => match (db.parse::<u64>(), unhx(pr), live.as_ref()) {
+                    (Ok(dbid), Some(peer), Some(l)) => {
+                        let id0 = ChannelId::new(&le_chan_id(&peer, dbid));
+                        match l.node.get_channel(&id0) {
+                            Err(_) => "none".into(),
+                            Ok(slot) => {
+                                let s = slot.lock().unwrap();
+                                let r = with_keys(&s, |k, ready| format!("ok {} {}", if ready { "ready" } else { "stub" }, material(k)));
+                                drop(s);
+                                mon.observe(l, &id0, "keys query");
+                                r
+                            }
+                        }
+                    }
+                    _ => "bad-op".into(),
+                },
+                ["advance", db, pr] => match (db.parse::<u64>(), unhx(pr), live.as_ref()) {
+                    (Ok(dbid), Some(peer), Some(l)) => {
+                        let id0v = le_chan_id(&peer, dbid);
+                        let id0 = ChannelId::new(&id0v);
+                        let info = l.node.with_channel(&id0, |c| Ok((c.enforcement_state.next_holder_commit_num, c.setup.clone())));
+                        match info {
+                            Err(_) => { mon.co.tags.insert("advance:err".into()); "err".into() }
+                            Ok((n, setup)) => {
+                                let node_ctx = TestNodeContext { node: l.node.clone(), secp_ctx: Secp256k1::signing_only() };
+                                let cp = make_test_counterparty_keys(&node_ctx, &id0, setup.channel_value_sat);
+                                let chan_ctx = TestChannelContext { channel_id: id0.clone(), setup: setup.clone(), counterparty_keys: cp };
+                                let mut ctx = channel_commitment(&node_ctx, &chan_ctx, n, 0, setup.channel_value_sat - 1000, 0, vec![], vec![]);
+                                let (csig, hsigs) = counterparty_sign_holder_commitment(&node_ctx, &chan_ctx, &mut ctx);
+                                match validate_holder_commitment(&node_ctx, &chan_ctx, &ctx, &csig, &hsigs) {
+                                    Err(e) => { mon.co.tags.insert("advance:refused".into()); format!("refused {:?}", e.code()) }
+                                    Ok((next_point, secret)) => {
+                                        mon.co.tags.insert("advance:ok".into());
+                                        // the point handed out for n+1 and the secret released for n-1
+                                        let keys = l.node.with_channel(&id0, |c| Ok(c.keys.clone())).unwrap();
+                                        let s_next = keys.release_commitment_secret(INITIAL - (n + 1)).unwrap();
+                                        mon.commit_obs(l, &id0v, n + 1, &s_next, Some(next_point), "validate/revoke");
+                                        let relstr = match secret {
+                                            None => "none".to_string(),
+                                            Some(s) => {
+                                                rel = true;
+                                                mon.co.tags.insert("advance:released".into());
+                                                let sb = s.secret_bytes();
+                                                mon.commit_obs(l, &id0v, n - 1, &sb, None, "revoke");
+                                                let again = l.node.with_channel_base(&id0, |b| Ok(b.get_per_commitment_secret_or_none(n - 1))).unwrap();
+                                                if again.map(|x| x.secret_bytes()) != Some(sb) {
+                                                    mon.fire("keys-depend-on-history", format!("channel {}: revoke released {} for {} but get_per_commitment_secret_or_none gives {:?}", hx(&id0v), hx(&sb), n - 1, again.map(|x| hx(&x.secret_bytes()))));
+                                                }
+                                                mon.released(l, &id0v, n - 1, sb, "revoke");
+                                                hx(&sb)
+                                            }
+                                        };
+                                        mon.observe(l, &id0, "after validate/revoke");
+                                        format!("ok next={} released={}", n + 1, relstr)
+                                    }
+                                }
+                            }
+                        }
+                    }
+                    _ => "bad-op".into(),
+                },
+                ["commit", db, pr, ns] => match (db.parse::<u64>(), unhx(pr), ns.parse::<u64>(), live.as_ref()) {
+                    (Ok(dbid), Some(peer), Ok(n), Some(l)) if n <= INITIAL + 1 => {
+                        let id0v = le_chan_id(&peer, dbid);
+                        let id0 = ChannelId::new(&id0v);
+                        match l.node.get_channel(&id0) {
+                            Err(_) => "none".into(),
+                            Ok(slot) => {
+                                let s = slot.lock().unwrap();
+                                let secret = if n <= INITIAL { Some(with_keys(&s, |k, _| k.release_commitment_secret(INITIAL - n).unwrap())) } else { None };
+                                drop(s);
+                                let point = l.node.with_channel_base(&id0, |b| b.get_per_commitment_point(n)).ok();
+                                let released = l.node.with_channel_base(&id0, |b| Ok(b.get_per_commitment_secret_or_none(n))).unwrap();
+                                if let Some(sec) = secret {
+                                    mon.commit_obs(l, &id0v, n, &sec, point, "per-commitment query");
+                                    if let Some(r) = released {
+                                        if r.secret_bytes() != sec {
+                                            mon.fire("keys-depend-on-history", format!("channel {}: get_per_commitment_secret_or_none({}) = {} but the signer's secret is {}", hx(&id0v), n, hx(&r.secret_bytes()), hx(&sec)));
+                                        }
+                                        mon.co.tags.insert("commit:released".into());
+                                    }
+                                }
+                                mon.co.tags.insert(format!("commit:point-{}", if point.is_some() { "ok" } else { "refused" }));
+                                format!(
+                                    "secret={} point={} released={}",
+                                    secret.map(|s| hx(&s)).unwrap_or("none".into()),
+                                    if point.is_some() { "ok" } else { "refused" },
+                                    if released.is_some() { "yes" } else { "no" }
+                                )
+                            }
+                        }
+                    }
+                    _ => "bad-op".into(),
+                },
+                ["restart"] => match live.take() {
+                    Some(l) => {
+                        reinst += 1;
+                        let l2 = C18Node::restart(l, inst);
+                        inst += 1;
+                        mon.co.tags.insert("restart".into());
+                        mon.observe_all(&l2, "after restart");
+                        // re-check every per-commitment value recorded so far for channels of this node
+                        let ids: Vec<ChannelId> = l2.node.get_channels().keys().cloned().collect();
+                        let mut id0s = std::collections::BTreeSet::new();
+                        for id in ids {
+                            let slot = l2.node.get_channel(&id).unwrap();
+                            let s = slot.lock().unwrap();
+                            let id0v = s.id().inner().clone();
+                            if !id0s.insert(id0v.clone()) { continue; }
+                            let known: Vec<u64> = mon.ledger.get(&(l2.cfgkey.clone(), id0v.clone())).map(|x| x.commits.keys().cloned().collect()).unwrap_or_default();
+                            for n in known {
+                                let sec = with_keys(&s, |k, _| k.release_commitment_secret(INITIAL - n).unwrap());
+                                mon.commit_obs(&l2, &id0v, n, &sec, None, "after restart");
+                            }
+                        }
+                        let count = id0s.len() - l2.random_ids.len().min(id0s.len());
+                        live = Some(l2);
+                        format!("ok {}", count)
+                    }
+                    None => "bad-op".into(),
+                },
+                _ => "bad-op".into(),
+            };
+            co.out.push(line);
+        }
+        let _ = live.as_ref().map(|l| (&l.persister, &l.seed, &l.style));
+        co.nontrivial = ids_seen.len() >= 2 && reinst >= 1 && rel;
+        co
+    }
+}
 
 pub fn groups() -> Vec<Box<dyn Group>> {
-    vec![]
+    vec![Box::new(C18Unit), Box::new(C18Node)]
 }
